@@ -24,12 +24,12 @@ CLAIMED = {
                   'Request/Command/Read/Write, none for Acknowledge/replies/broadcast commands; Acknowledge codes equal an independent reference function; the requested PGN is sent iff every selection pair matches (60928, '
                   '126464, 126996, 126998); commands to 60928/126998 take effect and are read back through the ISO request path; heartbeat request limits.  Model tied to ~1000 lines of C++ by correspondence on node histories.',
              note=TB + 'Three open known findings (Command acknowledged for PGNs it cannot execute; refused command applied; malformed description accepted).  UCS-2 selection strings and cut pairs: correspondence only.',
-             design='6 C09', ready=False, technique='Coq proof over executable model + extracted-model/implementation correspondence'),
+             design='6 C09', technique='Coq proof over executable model + extracted-model/implementation correspondence'),
  'C07': dict(text='node_safe: for every group-function reaction satisfying an explicit contract (proved for the no-op instance and for the library model gf_lib), every cold node and EVERY operation list (arbitrary frames, DLC 0..8, '
                   'polls, ticks, sends): the model never indexes Devices[]/N2kCANMsgBuf[] out of range (sticky r_oob flag), never delivers more than 223 bytes, keeps its slot and queue invariants; one poll consumes at most 20 '
                   'frames; fuelled loops are fuel-independent.  The device-list half is C18_heap_safe.  Tied to the C++ by protocol-grammar fuzz under ASan/UBSan with the library arrays relocated between inaccessible pages.',
              note=TB + 'Partial by nature: the theorem is about the abstract memory of the model; real memory safety of the C++ is evidenced by the sanitizer correspondence on the sampled histories, not proved.',
-             design='6 C07', ready=False, technique='Coq invariant proof over executable model + sanitizer-backed extracted-model/implementation correspondence'),
+             design='6 C07', technique='Coq invariant proof over executable model + sanitizer-backed extracted-model/implementation correspondence'),
  'C08': dict(text='Theorems for all 2^24 requested PGNs (one quantifier), every requester and device: addressed requests to a device on the bus are answered with the claim / both PGN lists / product / configuration information '
                   '(payloads equal to reference layouts written from the published definitions) or the handler\'s choice or exactly one NAK to the requester; broadcast requests never originate a NAK; nothing while the claim is '
                   'pending; dispatch by destination; retry timing of refused information answers.  Tied to the C++ by correspondence; independent reference machine as oracle.',
